@@ -74,7 +74,7 @@ func infoJob(data []byte, sr bool) string {
 func infoCases(r *hx.Rng, nRandom int) []ccase {
 	var sel []ccase
 	for _, c := range countCases(false) {
-		if len(c.data) >= 16 && infoKinds[string(c.data[4:8])] {
+		if len(c.data) >= 16 && infoKinds[string(c.data[4:8])] && !strings.Contains(c.desc, solveMark) {
 			sel = append(sel, c)
 		}
 	}
